@@ -522,7 +522,7 @@ def main():
             "trusted_base": [
                 "Lean 4.33.0 kernel" + (" (re-checked by leanchecker)" if tier == "thorough" else ""),
                 "axioms used by the theorems of this property: " + (", ".join(axioms) if axioms else "none"),
-                "tools/go2lean + tools/gofacts + tools/gostr2lean (source -> Lean translation of counts.go, sizes.go arithmetic, tables, call sites, string functions)",
+                "tools/go2lean + tools/gofacts + tools/gostr2lean (source -> Lean: counts.go and the arithmetic of sizes.go as BitVec functions; string and object-parser functions in the Res monad; tables, call sites and the statement lists of every function and declaration of all non-test source files via go/parser + go/printer)",
                 "correspondence driver (differential testing of the hand-written model against the Go code)",
             ] + cfg.get("trusted", []),
             "theorems": names,
